@@ -33,11 +33,21 @@ func (rc *arrayCodec) Read(r *ReadBuf, p unsafe.Pointer) error {
 			}
 		}
 
-		// If our array is nil or undersized then we can fix it up here.
-		*sh = rc.resizeSlice(*sh, int(count))
+		// If our array is nil or undersized then we can fix it up here. The
+		// count comes from the data, so it is not trusted for memory: reserve
+		// room for no more items than there are bytes left to decode them
+		// from, and grow if more really do arrive.
+		reserve := count
+		if reserve > int64(r.Len()) {
+			reserve = int64(r.Len())
+		}
+		*sh = rc.resizeSlice(*sh, int(reserve))
 
 		itemSize := rc.itemType.Size()
 		for i := int64(0); i < count; i++ {
+			if sh.Len == sh.Cap {
+				*sh = rc.resizeSlice(*sh, sh.Len+1)
+			}
 			cursor := unsafe.Pointer(uintptr(sh.Data) + uintptr(sh.Len)*itemSize)
 			if err := rc.itemCodec.Read(r, cursor); err != nil {
 				return fmt.Errorf("failed to decode array entry %d. %w", i, err)
